@@ -309,6 +309,24 @@ def writer_rules(ck):
         entry_ok = isinstance(ent, (ast.List, ast.Tuple)) and [u(e) for e in ent.elts] == ['tmp_path', tmpf.args.args[1].arg, 'mode']
     ck.ob('PROV-pending', fw.loc(tmpf), ok and entry_ok, 'every temporary file is recorded as [temporary, destination, mode], unconditionally',
           key='PROV-pending|record')
+    # a record is written once: the mode a destination is finalised with is the mode of its *first* opening (a later re-opening reads or extends the
+    # same temporary file; it must not turn a replacement into an append or the reverse)
+    edits = []
+    wcls = fw.enclosing(tmpf, ast.ClassDef)
+    for meth in [m_ for m_ in (wcls.body if wcls is not None else []) if isinstance(m_, ast.FunctionDef)]:
+        record_vars = set()
+        for l_ in walk_local(meth):
+            if isinstance(l_, (ast.For, ast.comprehension)) and 'open_files' in u(l_.iter):
+                record_vars |= {n_.id for n_ in ast.walk(l_.target) if isinstance(n_, ast.Name)} if isinstance(l_.target, ast.Name) else set()
+            if isinstance(l_, ast.Assign) and 'open_files' in u(l_.value) and isinstance(l_.value, ast.Subscript) and isinstance(l_.targets[0], ast.Name):
+                record_vars.add(l_.targets[0].id)
+        for n_ in walk_local(meth):
+            if isinstance(n_, ast.Subscript) and isinstance(n_.ctx, (ast.Store, ast.Del)):
+                root = base_name(n_)
+                if 'open_files' in u(n_.value) or (root in record_vars and isinstance(n_.value, ast.Name)):
+                    edits.append('{}: {}'.format(meth.name, u(n_)))
+    ck.ob('PROV-pending', fw.loc(tmpf), not edits, 'a recorded [temporary, destination, mode] entry is never edited afterwards ({})'.format(edits or 'no store into an entry'),
+          key='PROV-pending|record-immutable')
     fd = [c for c in walk_local(tmpf) if isinstance(c, ast.Call) and call_name(c) == 'os.fdopen']
     ck.ob('PROV-pending', fw.loc(tmpf), len(fd) == 1 and u(fd[0].args[0]) == 'handle' and isinstance(tmpf.body[-1], ast.Return) and fd[0] is tmpf.body[-1].value,
           'the handle returned is the mkstemp handle', key='PROV-pending|handle')
@@ -481,8 +499,15 @@ def cli_gate(ck):
     ck.ob('MPT-gate', cli.loc(ent), bool(good) and ok, 'with leftover warnings the run ends in sys.exit(<non-zero>) before the finalisation could be reached', key='MPT-gate|exit')
     # after the count, entry() only branches on it: nothing that can still log a warning runs between the count and the decision
     rest = tail[1:]
-    only_gate = bool(rest) and all(isinstance(s_, ast.If) and flow.atoms_of(norm(flow.to_formula(s_.test, {u(ent.body[start].targets[0]): ent.body[start].value}))) == {'LEFT'}
-                                   for s_ in rest)
+    def is_gate(s_):
+        return isinstance(s_, ast.If) and flow.atoms_of(norm(flow.to_formula(s_.test, {u(ent.body[start].targets[0]): ent.body[start].value}))) == {'LEFT'}
+    # (either `if left: complain; exit  else: write` or the guard-clause form `if left: complain; exit` followed by the write at the top level)
+    before_write = []
+    for s_ in rest:
+        if any(n_ is call for n_ in ast.walk(s_)) and not is_gate(s_):
+            break
+        before_write.append(s_)
+    only_gate = bool(rest) and all(is_gate(s_) for s_ in before_write)
     ck.ob('MPT-gate', cli.loc(ent), only_gate, 'the leftover warnings are counted last: after the count entry() only branches on it, so nothing that can still log runs in between',
           key='MPT-gate|count-last')
     # COUNTER wiring
